@@ -83,17 +83,24 @@ def own_field(f, X, name):
 MODELLED = ('extend', 'append', 'extend_from_slice')      # absx: the place holds old ++ argument afterwards ('update' event)
 
 def unread_mutations(o, upto, name):
-    """Calls on the path (before event `upto`) that take a field called `name` by `&mut` and that the interpreter has no model
-    for (push, clear, truncate, retain, insert, drain, ...): the heap does not know what such a call leaves in the place, so a rule
-    that reads the place must not trust it."""
+    """Calls on the path (before event `upto`) that get a field called `name` by `&mut` - as the auto-referenced receiver of a
+    method or as an explicit `&mut x.name` argument - and that the interpreter has no model for (push, clear, truncate, retain,
+    insert, drain, swap, ...): the heap does not know what such a call leaves in the place, so a rule that reads the place must
+    not trust it.  (mem::take / mem::replace on a field are modelled by absx and do not appear as such calls.)"""
     out = []
+    def by_mut_ref(x):
+        if x.get('k') == 'AddrOf':
+            return bool(x.get('mut')) and hirq.peel_refs(x).get('k') == 'Field' and hirq.peel_refs(x).get('name') == name
+        return x.get('k') == 'Field' and x.get('name') == name and (x.get('adj_ty') or '').startswith('&mut ')
     for e in o.st.ev[:upto]:
-        if e[0] != 'call' or not isinstance(e[3], dict) or e[3].get('k') != 'MethodCall':
+        if e[0] != 'call' or not isinstance(e[3], dict) or e[3].get('k') not in ('MethodCall', 'Call'):
             continue
-        r = e[3]['recv']
-        pr = hirq.peel_refs(r)
-        if pr.get('k') == 'Field' and pr.get('name') == name and (r.get('ty') or '').startswith('&mut ') and e[1].rsplit('::', 1)[-1] not in MODELLED:
-            out.append(e[1].rsplit('::', 1)[-1])
+        m = e[1].rsplit('::', 1)[-1]
+        if e[1] in ('core::mem::take', 'core::mem::replace', absx.Interp.TAKE):
+            continue
+        operands = ([e[3]['recv']] if e[3].get('k') == 'MethodCall' else []) + list(e[3].get('args') or [])
+        if any(by_mut_ref(x) for x in operands) and not (m in MODELLED and e[3].get('k') == 'MethodCall' and by_mut_ref(e[3]['recv'])):
+            out.append(m)
     return out
 
 def field_at(o, i, X, name):
